@@ -140,9 +140,8 @@ def rxso3_Jl_inv(x):
     return J_inv
 
 def rxso3_adj(x):
-    adj_4x4 = torch.zeros((x.shape[:-1]+(4, 4)), device=x.device, dtype=x.dtype, requires_grad=False)
-    adj_4x4[..., :3, :3] = vec2skew(x[..., :3])
-    return adj_4x4
+    # zero-padded (not written into a fresh buffer) so that it also runs on a vmap-batched argument
+    return torch.nn.functional.pad(vec2skew(x[..., :3]), (0, 1, 0, 1))
 
 def sim3_adj(x):
     tau, phi, sigma = x[..., :3], x[..., 3:6], x[..., 6:]
